@@ -1,5 +1,5 @@
 #!/bin/sh
-# usage: tools/benign.sh <iso-dir> <Bxx> [checks...]   runs b1..b3 of /tmp/wtB-<Bxx>/BENIGN against the given checks
+# usage: tools/benign.sh <iso-dir> <Bxx> [checks...]   runs /verif/seeded/benign/<Bxx>-b{1,2,3}.diff against the given checks
 # (default: the per-area list below) in the isolated copy. Every line should say exit=0.
 ISO=$1; B=$2; shift 2
 case $B in
@@ -16,7 +16,7 @@ case $B in
 esac
 [ $# -gt 0 ] && L="$*"
 for b in b1 b2 b3; do
-  f=/tmp/wtB-$B/BENIGN/$b.diff
+  f=/verif/seeded/benign/$B-$b.diff
   [ -f $f ] || continue
   /verif/tools/iso.sh try $ISO $f quick $L | sed "s/^/$B $b: /"
 done
